@@ -15,5 +15,5 @@ HARNESSES = [
 ASSUMPTIONS = ['attribute table contents are excluded (attributes are used as addresses only); attribute index symbolic over the whole table (count read from the sources by a probe and compared with the documented product 2*2*16*7*3*3)',
                'the oracle decodes indices by the documented field order; division/modulo by constants on both sides',
                'global queues: the platform clamp (no OS QoS support: MAINTENANCE->BACKGROUND, USER_INTERACTIVE->USER_INITIATED) is part of the oracle']
-LEVEL_TEXT = 'placeholder'
-LEVEL_NOTE = 'placeholder'
+LEVEL_TEXT = 'Attribute algebra over the whole table: symbolic index over all 4032 entries (count probed from the sources and compared with the documented product) and arbitrary constructor arguments: each of the four public constructors changes exactly its field, invalid QoS/relative priority leave the attribute unchanged, any two constructors commute, to_info/from_info round-trip. dispatch_get_global_queue over all int-valued identifiers x all 2^64 flags: documented class with the platform clamp, NULL for undefined identifiers/flags. A genuine defect (HIGH priority mapped to the background queue) was found and fixed in /repo.'
+LEVEL_NOTE = 'The identity part of the property (dispatch_get_specific, dispatch_assert_queue inside work items) is NOT covered by a registered harness; queue creation from an attribute (_dispatch_lane_create_with_target) is exercised only through the configurations of the history harness.'
